@@ -138,9 +138,9 @@ def axiom_audit(prop: str, module: str, theorems: list[str]) -> dict:
     p = subprocess.run(["lake", "env", "lean", str(f)], cwd=LEAN, capture_output=True, text=True)
     out = p.stdout + p.stderr
     res: dict[str, list[str] | None] = {t: None for t in theorems}
-    for m in re.finditer(r"'([^']+)' depends on axioms: \[([^\]]*)\]", out, flags=re.S):
+    for m in re.finditer(r"'(\S+)' depends on axioms: \[([^\]]*)\]", out, flags=re.S):
         res[m.group(1)] = [a.strip() for a in m.group(2).replace("\n", " ").split(",") if a.strip()]
-    for m in re.finditer(r"'([^']+)' does not depend on any axioms", out):
+    for m in re.finditer(r"'(\S+)' does not depend on any axioms", out):
         res[m.group(1)] = []
     res["_rc"] = p.returncode  # type: ignore[assignment]
     res["_log"] = out[-3000:] if p.returncode != 0 else ""  # type: ignore[assignment]
